@@ -27,6 +27,15 @@ def run(chk, replay=None):
             ei = (io2 == io1); em = (mm2 == mo1) if isinstance(mo1, bytes) else None
             if em is not None and ei != em:
                 chk.disagree('second pass equals first pass', {'cfg': cfg.describe(), 'input': l.decode('utf-8', 'replace')[:1500]}, ei, em)
+            if not ei and not any('shrunk_input' in v.get('case', {}) for v in chk.violations):
+                from vlib import shrink
+                def fails(b, cfg=cfg):
+                    o1 = shrink.impl_line(cfg, b)
+                    return isinstance(o1, bytes) and shrink.impl_line(cfg, o1) != o1
+                sb = shrink.shrink_line(l, fails)
+                o1 = shrink.impl_line(cfg, sb)
+                chk.violate('second pass changes the first-pass output (shrunk witness)', {'cfg': cfg.describe(), 'shrunk_input': sb.decode('utf-8', 'replace'), 'first': str(o1)[:600],
+                            'second': str(shrink.impl_line(cfg, o1) if isinstance(o1, bytes) else '')[:600]}, tags=['idem'])
             if not ei:
                 i = next((i for i in range(min(len(io1), len(io2))) if io1[i] != io2[i]), 0) if isinstance(io2, bytes) else 0
                 chk.violate('second pass changes the first-pass output', {'cfg': cfg.describe(), 'input': l.decode('utf-8', 'replace')[:2000], 'first': io1[max(0, i - 120):i + 80].decode('utf-8', 'replace'),
